@@ -2,7 +2,7 @@ import copy
 from collections.abc import Callable
 from typing import TYPE_CHECKING, Any, Optional, TypedDict, TypeGuard, Union, cast
 
-from prosemirror.utils import Attrs, JSONDict, text_length
+from prosemirror.utils import Attrs, JSONDict, slice_utf16, text_length
 
 from .comparedeep import compare_deep
 from .fragment import Fragment
@@ -395,7 +395,7 @@ class TextNode(Node):
         block_separator: str = "",
         leaf_text: Callable[["Node"], str] | str = "",
     ) -> str:
-        return self.text[from_:to]
+        return slice_utf16(self.text, from_, to)
 
     @property
     def node_size(self) -> int:
